@@ -49,7 +49,8 @@ pub struct Cfg {
     pub ctime: Option<u64>,
     pub lang: Option<String>,
     /// API path variant bits: 1 = set_video_track instead of video, 2 = set_audio_track
-    /// instead of audio, 4 = set_create_time/set_language instead of Metadata builder
+    /// instead of audio, 4 = set_create_time/set_language instead of Metadata builder,
+    /// 8 = each of video()/audio() is preceded by a call with a decoy configuration
     pub path: u8,
 }
 
